@@ -30,6 +30,21 @@ class Violation:
         return {"props": list(self.props), "clause": self.clause, "detail": self.detail, "opno": self.opno}
 
 
+class CallableObject:
+    """A plain (sync) callback that is neither a function nor hashable (like a dataclass instance with __call__)."""
+
+    __hash__ = None  # type: ignore[assignment]
+
+    def __init__(self, fn: Any) -> None:
+        self.fn = fn
+
+    def __eq__(self, other: Any) -> bool:
+        return self is other
+
+    def __call__(self, task_id: Any) -> Any:
+        return self.fn(task_id)
+
+
 class Sentinel:
     """Identity-checked argument object."""
 
@@ -446,6 +461,8 @@ class World:
         if spec.get("partial"):
             import functools
             return functools.partial(scb)
+        if spec.get("obj"):
+            return CallableObject(scb)
         return scb
 
     def cb_probe(self, kind: str, tm: TaskM) -> None:
@@ -491,10 +508,19 @@ class World:
                 elems.append({"s": s, "j": j})
         rm.elements = elems
         pull_ops = spec.get("pull_ops") or {}
+        raise_at = spec.get("raise_at", -1)
 
         def gen():
             try:
                 for j in range(n):
+                    if j == raise_at:
+                        exc = Injected(f"iterator r{rm.rid}[{j}]")
+                        rm.pm.injected.append(exc)
+                        rm.pm.fault_seen = True
+                        rm.iter_failed = j  # type: ignore[attr-defined]
+                        world.ev(f"iterator of r{rm.rid} raises at {j}")
+                        world.label("fault:iterator")
+                        raise exc
                     rm.pulled += 1
                     world.ev(f"pull r{rm.rid}[{j}]")
                     rm.in_pull = True
